@@ -63,3 +63,15 @@ Theorem C08_aero_center_restores_real : forall W F s delta, unit_attitude s -> o
   snd (aero_center cos sin tan atan asin Ratan2 d2r r2d W F s delta) = s.
 Proof. intros W F. exact (C08_aero_center_restores cos sin tan atan asin Ratan2 d2r r2d W F okB_real HB_real). Qed.
 Print Assumptions C08_aero_center_restores_real.
+
+(* ---------------------------------------------------------------------------------------------------------------------------------
+   state_derivatives and pitch_trim_using_orientation(set_trim_state=False) put the state back through set_state with a keyword
+   dictionary built from get_state() (Model/Restore.v).  The complete state - position, attitude, Earth-fixed velocity, body rates
+   AND the frame the rates were given in, which selects the axes of the damping derivatives - comes back exactly (fix da9be0f);
+   the second statement is the behaviour before the fix: everything but the frame. *)
+From MuxV Require Import Model.Restore Proofs.RestoreP.
+Theorem C08_full_restore_keeps_rate_frame : forall fcos fsin fasin fatan2 d2r (s : fstate R), qn2 (f_q s) = 1 ->
+  restore fcos fsin fasin fatan2 d2r s = s /\
+  restore_without_frame fcos fsin fasin fatan2 d2r s = mk_fs (f_p s) (f_q s) (f_v s) (f_w s) FBody.
+Proof. intros. split; [apply restore_id | apply restore_without_frame_loses_it]; assumption. Qed.
+Print Assumptions C08_full_restore_keeps_rate_frame.
